@@ -165,7 +165,7 @@ theorem rel_done_ext (st st' : State) (he : Ext st st') (oid : Nat) (hr : Rel .d
   obtain ⟨s', ho', hm⟩ := he.objs oid s ho
   refine ⟨s', ho', ?_⟩
   rcases hn with hn | hn
-  · exact Or.inl (hm.2.2.2.2 hn)
+  · exact Or.inl (hm.2.2.2.2.1 hn)
   · exact Or.inr (hm.1.trans hn)
 
 theorem rel_other (st st' : State) (he : Ext st st') (oid : Nat) (ho : st'.obj oid = st.obj oid) (p : Phase) (hr : Rel p st oid) :
@@ -472,8 +472,14 @@ namespace RSocketModel.Engine
 /-! ### every entry point -/
 
 theorem rel_same (st st' : State) (h1 : st'.heap = st.heap) (h2 : st'.table = st.table) (oid : Nat) (p : Phase)
-    (hr : Rel p st oid) : Rel p st' oid :=
-  rel_other st st' (ext_field st st' h1 h2) oid (by simp only [State.obj, h1]) p hr
+    (hr : Rel p st oid) : Rel p st' oid := by
+  have ho : st'.obj oid = st.obj oid := by simp only [State.obj, h1]
+  cases p with
+  | idle => intro s hs; rw [ho] at hs; exact hr s hs
+  | active => obtain ⟨s, hs, h3, h4⟩ := hr; exact ⟨s, by rw [ho]; exact hs, h3, h4⟩
+  | done =>
+    obtain ⟨⟨s, hs, hc⟩, s2, hs2, h3⟩ := hr
+    exact ⟨⟨s, by rw [ho]; exact hs, by rw [h2]; exact hc⟩, s2, by rw [ho]; exact hs2, h3⟩
 
 theorem good_focused (st : State) (r : State × List Out) (a : Nat) (he : Ext st r.1)
     (hobj : ∀ j, j ≠ a → r.1.obj j = st.obj j) (htg : ∀ x ∈ r.2, x.target = none ∨ x.target = some a)
